@@ -506,6 +506,7 @@ static Plan gen_C08(uint64_t seed, Rng &r) {
     for (int i = 0; i < nops; i++) {
         int x = (int)r.below(13);
         int tos = r.chance(0.85) ? 0 : 1;
+        size_t at = p.ops.size();
         if (x < 5) p.ops.push_back(mk(OP_FETCH, (uint32_t)r.range(5, 80), {mapper, br, 0, rnd_seq(r), r.pickl({0x0E, 0x0E, 0x11, 0x13}), tos, 90}));
         else if (x < 9) {
             int64_t off;
@@ -519,6 +520,8 @@ static Plan gen_C08(uint64_t seed, Rng &r) {
             if (r.chance(0.5)) p.ops.push_back(mk(OP_QLT, (uint32_t)r.range(5, 40), {other, rnd_bridge(r, other), 0, rnd_seq(r), r.pickl({0x0E, 0x11, 0x13}), r.chance(0.5) ? 0 : r.range(0, 3000), tos}));
             else p.ops.push_back(mk(OP_FETCH, (uint32_t)r.range(5, 40), {other, rnd_bridge(r, other), 0, rnd_seq(r), r.pickl({0x0E, 0x11, 0x13}), tos, 90}));
         }
+        if (r.chance(0.03) && p.ops.size() > at) // the mapper comes back minutes or hours later (no Reset in between): the property is what the platform holds, however old the responder's copy
+            p.ops[at].dt = (uint32_t)(1000 * (n.glue == GLUE_DARWIN ? r.pickl({59, 61, 120, 299, 300, 301, 305, 600}) : r.pickl({59, 61, 120, 299, 300, 301, 305, 600, 900, 3600, 86400})) + r.range(-5, 999));
     }
     p.tail_ms = 800;
     return p;
@@ -685,6 +688,7 @@ static Plan gen_C10(uint64_t seed, Rng &r) {
         int pool = (int)r.below(5);
         Mac spoof = pool == 0 ? nm[A] : pool == 3 ? nm[B] : pool == 4 ? (r.chance(0.5) ? MAC_BCAST : MAC_ZERO) : World(p).station_mac(4 + (int)r.below(2));
         e.blob = rnd_descs(r, cnt, &spoof, &nm[B]);
+        if (r.chance(0.08)) e.blob[14 * r.below(cnt)] = (uint8_t)r.pickl({2, 2, 3, 128, 255}); // a descriptor of a kind this responder does not know (it orders nothing), in front of, between or behind the Probe/Train orders
         if ((pool == 1 || pool == 2) && r.chance(0.7)) // unrelated traffic from the station that really owns that address, seen by B just before
             p.ops.push_back(mk(OP_PROBE, (uint32_t)r.range(1, 30), {spoof.a[5], spoof.a[5], r.chance(0.5) ? wire::W_PROBE : wire::W_TRAIN, 100 + B, 100 + B, 0, 0, 0}));
         p.ops.push_back(e);
@@ -1026,6 +1030,13 @@ static Plan gen_C15(uint64_t seed, Rng &r, uint64_t index) {
             p.ops.push_back(mk(OP_A_SESS, 0, {(int64_t)r.below(8)}));
             continue;
         }
+        if (r.chance(0.015)) { // a sparse run: the same event 126..130 / 254..258 / 511..513 times, each more than the inactivity timeout after the previous one, then another event after one more gap
+            int64_t ev = (int64_t)r.below(8), n = r.pickl({126, 127, 128, 129, 254, 255, 256, 257, 258, 300, 511, 512, 513}), gap = 1000 * r.pickl({2, 2, 3, 10, 61});
+            for (int64_t k = 0; k < n; k++) { p.ops.push_back(mk(OP_A_ADV, 0, {gap})); p.ops.push_back(mk(OP_A_SESS, 0, {ev})); }
+            p.ops.push_back(mk(OP_A_ADV, 0, {gap}));
+            p.ops.push_back(mk(OP_A_SESS, 0, {r.chance(0.6) ? r.pickl({0, 2, 3}) : (int64_t)r.below(8)}));
+            continue;
+        }
         if (x < 6) { Op o = mk(OP_A_SESS, 0, {(int64_t)r.below(8)}); if (r.chance(0.05)) { Fault f; f.kind = F_ALLOCFAIL; f.a = 1; f.b = 99; o.f.push_back(f); } p.ops.push_back(o); } // the life-cycle must not depend on memory being available
         else if (x < 7 && r.chance(0.3)) p.ops.push_back(mk(OP_A_REINIT, 0, {})); // a second, third, ... automaton created later in the life of the process
         else if (x < 7 && r.chance(0.4)) p.ops.push_back(mk(OP_A_TICK, 0, {})); // the daemon's periodic tick runs between session events
@@ -1101,6 +1112,7 @@ static Plan gen_C17(uint64_t seed, Rng &r) {
         p.ops.push_back(on(mk(OP_PROBE, 5, {1500, 1500, wire::W_PROBE, 100, 100, 0, 0, 0}), 0));
         p.ops.push_back(on(mk(OP_QLT, 5, {0, -1, 0, rnd_seq(r), 0x0E, 0, 0}), 0));
         int64_t K = r.pickl({15, 16, 17, 31, 32, 33, 63, 64, 65, 66, 127, 128, 129, 200});
+        if (r.chance(0.2)) K = r.pickl({255, 256, 257, 1023, 1024, 1025, 4095, 4096, 4097, 5000}); // a container host: thousands of short-lived interfaces during one session
         for (int64_t k = 0; k < K; k++) {
             p.ops.push_back(on(mk(OP_ATTR, (uint32_t)r.range(1, 5), {1, 0, 0x80000, 0}), 1));
             p.ops.push_back(disc(1 + (int)r.below(2), 1));
